@@ -238,6 +238,13 @@ def make_case(rng, point, scene, kindname, variant):
         for m in case["members"]:
             set_lock_rec(m, locked)
         case["others_members"] = copy.deepcopy(scene["others_members"][:n_others])
+        # the representation of every other operand: a lazy stack along each batch dim (self's and the others), a dense
+        # TensorDict, a tensorclass — member i of self is paired with the slice [i] along self's stack dim in every case
+        reps = [["lazy", d] for d in range(len(full_bs))] + [["lazy", 0], ["regular"], ["tc"]]
+        case["others_repr"] = [rng.choice(reps) for _ in range(n_others)]
+        for ms, rep in zip(case["others_members"], case["others_repr"]):
+            if rep[0] == "tc" and not ms[0][3]:
+                rep[:] = ["regular"]            # a tensorclass needs at least one field
         case["out_members"] = copy.deepcopy(scene["out_members"]) if has_out else None
     if kindname == "alias":
         case["alias"] = {"out": has_out, "other": n_others > 0 and variant % 2 == 0}
@@ -346,7 +353,8 @@ def run_real_(case, threads=None):
     try:
         if kindname == "lazy":
             selfobj = I.build_lazy(case["members"], B)
-            others = [I.build_lazy(ms, B) for ms in case["others_members"]]
+            reps = case.get("others_repr") or [["lazy", 0]] * len(case["others_members"])
+            others = [I.build_lazy_other(ms, rep, B) for ms, rep in zip(case["others_members"], reps)]
             outobj = I.build_lazy(case["out_members"], B) if case["out"] is not None else None
         else:
             selfobj = I.build_operand(case["self"], kindname, B, "self")
